@@ -423,6 +423,11 @@ def _wakeups(chk, repo):
         nr += b
     chk.ob("WAKE-5", "waiter lists of the ball-device classes examined", nf >= 2 and nr >= 2, "mpf/devices/ball_device:1", detail="%d lists, %d resolver loops" % (nf, nr),
            nontrivial=False)
+    from sa.helpers import consume_after_wake
+    consume_after_wake(chk, "WAKE-5", repo.func(BC, "BallCountHandler._run"), "self._revalidate",
+                       "a recount requested while the previous count was being handled is not lost")
+    consume_after_wake(chk, "WAKE-5", repo.func("mpf/devices/ball_device/switch_counter.py", "SwitchCounter._recount"), "self._trigger_recount",
+                       "a recount triggered while counting is done next")
     f = repo.func(IB, "IncomingBallsHandler._run")
     chk.analysed(f)
     cfg = f.cfg()
@@ -612,6 +617,8 @@ def battery():
         M("ball-count waiters forgotten before they are woken", BC, "        for future in self._ball_count_changed_futures:\n            if not future.done():\n                future.set_result(count)\n\n        # reset futures\n        self._ball_count_changed_futures = []", "        waiting = self._ball_count_changed_futures = []\n        for future in self._ball_count_changed_futures:\n            if not future.done():\n                future.set_result(count)", "WAKE-5"),
         M("timed-out incoming ball stays expected", IB, "                self._incoming_balls.remove(incoming_ball)\n", "                pass\n", "TIMEOUT-5"),
         M("incoming timeout reported only for the first", IB, "            for incoming_ball in timeouts:\n                await self.ball_device.lost_incoming_ball(source=incoming_ball.source)", "            for incoming_ball in timeouts:\n                await self.ball_device.lost_incoming_ball(source=incoming_ball.source)\n                break", "TIMEOUT-5"),
+        M("recount request wiped before the sleep", BC, "            await Util.first([ball_changes, revalidate_future, self._eject_started.wait()])\n            self._revalidate.clear()", "            self._revalidate.clear()\n            await Util.first([ball_changes, revalidate_future, self._eject_started.wait()])", "WAKE-5"),
+        M("recount request wiped after taking the lock", BC, "            self._revalidate.clear()\n\n            # get lock and update count\n            await self._is_counting.acquire()\n", "            # get lock and update count\n            await self._is_counting.acquire()\n            self._revalidate.clear()\n", "WAKE-5"),
     ]
 
 
